@@ -29,7 +29,7 @@ type manualCtx struct {
 	err  error
 }
 
-func newManualCtx() *manualCtx { return &manualCtx{done: make(chan struct{})} }
+func newManualCtx() *manualCtx                   { return &manualCtx{done: make(chan struct{})} }
 func (c *manualCtx) Deadline() (time.Time, bool) { return time.Now().Add(time.Hour), true }
 func (c *manualCtx) Done() <-chan struct{}       { return c.done }
 func (c *manualCtx) Err() error {
@@ -235,7 +235,7 @@ func c19Exec(sh c19Shape, stall int, ctx context.Context, onStall func()) *c19Ou
 func C19Plan() *vlib.Plan {
 	p := &vlib.Plan{
 		Property: "C19", Level: "fault_enumeration",
-		Rule: "E-FAULT over I/O steps: for each shape (plain send/receive, the same on an encrypted stream, typed exchange; client and server side of handshakes {no authentication + encryption, CLAIMTOBE, TOKEN, TOKEN without encryption, resumed session}) a dry run counts the endpoint's connection operations N; for every k < N the k-th read/write blocks forever and, once the stall is entered, (a) the context is cancelled, (b) a harness-controlled deadline context expires (thorough: also a real 50 ms timeout); plus already-cancelled before the call, cancelled after completion, and a never-cancellable context. Oracle: the call returns (10 s watchdog, the only wall-clock judgement), with an error (errors.Is(err, ctx.Err()) for plain stream operations), the connection was closed; never-cancelled runs equal the baseline. Non-trivial = the stall point was reached.",
+		Rule:   "E-FAULT over I/O steps: for each shape (plain send/receive, the same on an encrypted stream, typed exchange; client and server side of handshakes {no authentication + encryption, CLAIMTOBE, TOKEN, TOKEN without encryption, resumed session}) a dry run counts the endpoint's connection operations N; for every k < N the k-th read/write blocks forever and, once the stall is entered, (a) the context is cancelled, (b) a harness-controlled deadline context expires (thorough: also a real 50 ms timeout); plus already-cancelled before the call, cancelled after completion, and a never-cancellable context. Oracle: the call returns (10 s watchdog, the only wall-clock judgement), with an error (errors.Is(err, ctx.Err()) for plain stream operations), the connection was closed; never-cancelled runs equal the baseline. Non-trivial = the stall point was reached.",
 		Assume: []string{"free-running (context.AfterFunc callbacks run on standard-library goroutines); SSL/FS/KERBEROS shapes excluded (need certificates / a mount namespace / a KDC)"},
 	}
 	p.Gen = func(tier string, yield func(vlib.Case)) {
